@@ -107,8 +107,8 @@ Section StepExc.
     - split_hyp H; inv_ok H; exc_facts T rest (won (sets s T)) (won (sets s T)); fin_exc T.
     - split_hyp H; inv_ok H; exc_facts T rest (won (sets s T)) (won (sets s T)); fin_exc T.
     - split_hyp H; inv_ok H; exc_facts T rest (won (sets s T)) (won (sets s T)); fin_exc T.
+    - destruct second; split_hyp H; inv_ok H; exc_facts T rest (won (sets s T)) (won (sets s T)); fin_exc T.
     - split_hyp H; inv_ok H; exc_facts T rest (won (sets s T)) (won (sets s T)); fin_exc T.
-    - split_hyp H; [split_hyp H|]; inv_ok H; exc_facts T rest (won (sets s T)) (won (sets s T)); fin_exc T.
     - inv_ok H; exc_facts T rest (won (sets s T)) (won (sets s T)); fin_exc T.
     - inv_ok H; exc_facts T rest (won (sets s T)) (won (sets s T)); fin_exc T.
     - inv_ok H; exc_facts T rest (won (sets s T)) (won (sets s T)); fin_exc T.
